@@ -34,6 +34,16 @@ def tx_types(ctx):
                 for it in im2["items"]:
                     if it["kind"] == "fn":
                         helpers[it["name"]] = ctx.world.body(it["def"])
+            # a private trait of the codec through which the length helpers are reached (`trait Framed { fn remaining_len }`
+            # with one blanket `impl<T: Framed> SizedPacket for T`): its methods on X are X's helpers
+            if im2.get("self_adt") == adt and im2.get("trait") and im2["trait"]["path"].startswith("codec::"):
+                for it in im2["items"]:
+                    if it["kind"] == "fn" and it["name"] not in helpers:
+                        helpers[it["name"]] = ctx.world.body(it["def"])
+        if "packet_len" not in helpers:
+            for f_ in ctx.facts.fns:
+                if f_["kind"] == "fn" and f_["name"] == "packet_len" and (f_.get("impl_trait") or "").startswith("core::utils::SizedPacket") and re.fullmatch(r"[A-Z]\w*", f_.get("impl_self") or ""):
+                    helpers["packet_len"] = ctx.world.body(f_["path"])      # the blanket impl
         # Private plumbing (a free function of the module such as `opt_len(&self.field)`, an inherent method that is
         # neither a length-prefix helper nor the flags byte nor a predicate, e.g. `encode_reason_and_properties`) is
         # looked at in place: encode() and every role helper are flattened with exactly that plumbing inlined.
@@ -53,6 +63,8 @@ def tx_types(ctx):
                 return False            # free function of the same module
             if f_ is not None and f_["kind"] == "closure":
                 return False
+            if f_ is not None and f_["kind"] == "fn" and (f_.get("impl_trait") or "").startswith("codec::") and "core::utils::Encoder" in (f_.get("impl_self") or ""):
+                return False            # a private extension trait of the codec on the Encoder (`encode_opt`, `encode_all`): plumbing
             return True
         # a role helper that is a thin wrapper `fn remaining_len(&self) { self.remaining_len_with(self.property_len()) }` around
         # private plumbing that encode() calls directly (to compute a length once): the plumbing, called on the results of
@@ -102,10 +114,16 @@ _ALIAS = {}
 def helper_calls(atoms, adt):
     out = set()
     for a in atoms:
-        if a[0] == "call" and a[1].startswith(adt + "::"):
+        if a[0] == "call" and (a[1].startswith(adt + "::") or _trait_method_of(a[1], adt)):
             nm = a[1].split("::")[-1]
             out.add(_ALIAS.get(adt, {}).get(nm, nm))
     return out
+
+
+def _trait_method_of(path, adt):
+    """`<X<'a> as codec::SomeTrait>::m`: a method X implements for a private trait of the codec."""
+    m = re.match(r"<([\w:]+)(<[^>]*>)? as (codec::[\w:]+)>::\w+$", path or "")
+    return bool(m) and m.group(1) == adt
 
 
 def emissions(ctx, info):
@@ -145,7 +163,7 @@ def emissions(ctx, info):
         direct_helper = None
         if o[0] == "call":
             rn = callee_resolved(o[2]) or ""
-            if rn.startswith(adt + "::"):
+            if rn.startswith(adt + "::") or _trait_method_of(rn, adt):
                 direct_helper = rn.split("::")[-1]
                 direct_helper = (info.get("alias") or {}).get(direct_helper, direct_helper)
         item = ("const", const) if const else ("helper", direct_helper) if direct_helper else ("field", tuple(sorted(fields))) if fields else ("helperexpr", tuple(sorted(helpers))) if helpers else ("?", None)
